@@ -642,8 +642,15 @@ class Evaluator:
             s.learn(g, False); return b
         if b is RAISE:
             s.learn(g, True); return a
-        if isinstance(g, Opq) and g.k and g.k[0] == 'not': return Cond(g.k[1], b, a)
+        if isinstance(g, Opq) and g.k and g.k[0] == 'not': return s.mkcond(g.k[1], b, a)
         if isinstance(g, Opq) and g.k and g.k[0] == 'cmp' and g.k[1] == 'NotEq': return Cond(Opq('cmp', 'Eq', *g.k[2:]), b, a)
+        # decision-tree normal form: (g1 and g2) ? a : b  ==  g1 ? (g2 ? a : b) : b ;  (g1 or g2) ? a : b == g1 ? a : (g2 ? a : b)
+        if isinstance(g, Opq) and g.k and g.k[0] == 'and':
+            rest = g.k[2] if len(g.k) == 3 else Opq('and', *g.k[2:])
+            return s.mkcond(g.k[1], s.mkcond(rest, a, b), b)
+        if isinstance(g, Opq) and g.k and g.k[0] == 'or':
+            rest = g.k[2] if len(g.k) == 3 else Opq('or', *g.k[2:])
+            return s.mkcond(g.k[1], a, s.mkcond(rest, a, b))
         return Cond(g, a, b)
 
     def e_Tuple(s, e, env, mod, depth):
@@ -1266,11 +1273,20 @@ class Evaluator:
             s.block(st.body, env2, mod, depth)
             summary = {nm: env2.get(nm) for nm in assigned if nm not in tnames}
             init = {nm: s.lookup(nm, env, mod) for nm in summary}
-            s.loops.append({'iter': it, 'summary': summary, 'init': init, 'site': getattr(st, 'lineno', 0)})
+            s.loops.append({'iter': it, 'summary': summary, 'init': init, 'site': getattr(st, 'lineno', 0),
+                            'node': st, 'env': env, 'mod': mod, 'assigned': [nm for nm in assigned if nm not in tnames]})
             for nm in summary:
                 s.rebind(nm, Opq('loop', it, Opq('init', init[nm]), Opq('step', summary[nm])), env)
         else:
             for nm in assigned: s.rebind(nm, Opq('?', 'while-carried ' + nm), env)
+
+    def reeval_loop(s, lp, target_value, depth=1):
+        """evaluate the body of a summarised loop once more with the loop target bound to `target_value` (carried names stay atoms)"""
+        env2 = {'__parent__': lp['env']}
+        for nm in lp['assigned']: env2[nm] = Poly.atom(('carried', nm))
+        s.assign(lp['node'].target, target_value, env2, lp['mod'], depth)
+        s.block(lp['node'].body, env2, lp['mod'], depth)
+        return {nm: env2.get(nm) for nm in lp['assigned']}
 
     def assign(s, t, val, env, mod, depth):
         if isinstance(t, ast.Name):
